@@ -1,4 +1,5 @@
 SPECIFICATION Spec
 INVARIANT Reproduces
 PROPERTY Isolated
+PROPERTY FreshSnapshot
 CHECK_DEADLOCK FALSE
